@@ -298,6 +298,13 @@ def suite_ddd(ctx):
         except Exception:  # noqa
             ok = False
         if ok:
+            if rng.random() < 0.3:
+                # the application looks at the definition before handing it over (reading must not change what is sent later)
+                try:
+                    ddd.get_alfid()
+                except Exception:  # noqa
+                    pass
+                s.count('definition read before the call')
             cl.observe_outer(conn, lambda: client.dynamically_define_did(did, ddd))
             sends = [o[1] for o in conn.log if o[0] == 'send']
         lines.append(line)
